@@ -85,6 +85,9 @@ def configs(tier):
         out.append(dict(group="hash-order", target="asm-trace", first=g0))
     for t in ("report-fields", "sample-pools", "pedigree-args"):
         out.append(dict(group="hash-order", target=t))
+    # whole records: the C07 record drivers (sampler output -> call_sample_genotypes -> sumarise_vcf_record -> text) re-run under solver-ordered sets
+    for c7 in (dict(group="asm-line", scenario="mixed", report=3), dict(group="call-line", nA=3, report=3), dict(group="exact-line", nA=3, report=1), dict(group="ped-line", nA=2, report=3)):
+        out.append(dict(group="hash-order", target="record", c7=c7))
     return out
 
 
@@ -642,6 +645,17 @@ def _hash_drive(load, target, payload):
         g = rnp.array(payload["trace"], dtype=rnp.int8).reshape(2, 2, 2, 1)
         r = c14._drive_asm(ac, g, 0, 0)
         return _jsonable({k: r[k] for k in ("post_g", "post_p", "sup_g", "sup_p", "mode", "af", "afd", "inc")})
+    if target == "record":
+        from checks import c07
+
+        store = []
+        real, wrapped = _captured_explore(store)
+        E.explore = wrapped
+        try:
+            c07.replay(dict(config=payload["config"], model=payload["model"], witness={}))
+        finally:
+            E.explore = real
+        return [v for _, v, _ in store]
     args = load("mchap.application.arguments")
     if target == "report-fields":
         info, fmt = args.parse_report_fields(payload["report"])
@@ -693,9 +707,106 @@ def _hash_payload(c, choice):
     raise ValueError(t)
 
 
+def _ser(v, depth=0):
+    if isinstance(v, (str, int, bool)) or v is None:
+        return v
+    if isinstance(v, (float, rnp.floating)):
+        return repr(float(v))
+    if isinstance(v, rnp.integer):
+        return int(v)
+    if isinstance(v, rnp.ndarray):
+        return _ser(v.tolist(), depth + 1)
+    if isinstance(v, (list, tuple)) and depth < 6:
+        return [_ser(x, depth + 1) for x in v]
+    if isinstance(v, dict) and depth < 6:
+        return {str(getattr(k, "id", k)): _ser(x, depth + 1) for k, x in v.items()}
+    return "<%s>" % type(v).__name__
+
+
+class _Quiet:
+    """collector for a driver whose own verdicts are not the subject (they are judged by the check the driver belongs to)"""
+
+    def __init__(self, stats):
+        self.stats = stats
+        self.functions = set()
+
+    def path(self, n=1):
+        pass
+
+    def reachable(self, ctx):
+        return True
+
+    def ok(self, desc=None):
+        pass
+
+    def fail(self, *a, **k):
+        pass
+
+    def check(self, *a, **k):
+        return True
+
+    def note_inconclusive(self, why):
+        pass
+
+
+def _captured_explore(store):
+    """E.explore wrapped: every finished path leaves (its non-set-order integer choices, its value, the set orders drawn)"""
+    real = E.explore
+
+    def wrapped(fn, *a, **k):
+        for pr in real(fn, *a, **k):
+            if pr.exc is None:
+                try:
+                    pr.ctx.isolver.check()
+                    md = E.model_dict(pr.ctx.isolver.model())
+                except BaseException:
+                    md = {}
+                store.append(({k_: v_ for k_, v_ in md.items() if not str(k_).startswith("setorder")}, _ser(pr.value),
+                              [e for e in pr.ctx.events if e.get("kind") == "set-iteration"]))
+            yield pr
+
+    return real, wrapped
+
+
+def _run_hash_order_record(c, col):
+    import json
+    from checks import c07
+
+    site = "mchap.application.baseclass.LocusAssemblyData.format_vcf_record"
+    store = []
+    E.cfg.nd_sets = True
+    real, wrapped = _captured_explore(store)
+    E.explore = wrapped
+    try:
+        c07.run_config(dict(c["c7"]), _Quiet(col.stats))
+    finally:
+        E.explore = real
+        E.cfg.nd_sets = False
+        E.cfg.concrete_floats = False
+        E.reset_modules()
+    seen = {}
+    for key, val, orders in store:
+        col.path()
+        k = json.dumps(key, sort_keys=True)
+        txt = json.dumps(val, sort_keys=True)
+        if k not in seen:
+            seen[k] = (txt, orders)
+            col.ok("record for these inputs recorded (%s)" % c["c7"]["group"])
+        elif seen[k][0] != txt:
+            col.fail(site, "set-order-dependence", shape=dict(target="record", driver=c["c7"]["group"]),
+                     witness=dict(target="record", payload=dict(config=c["c7"], model=key), orders_a=seen[k][1][:3], orders_b=orders[:3]),
+                     desc="the %s record for the same inputs depends on the iteration order of a set: %s" % (c["c7"]["group"], _first_diff(json.loads(seen[k][0]), val)), model=key)
+        else:
+            col.ok("same inputs, another iteration order of the sets involved: identical record (%s)" % c["c7"]["group"])
+    if not store:
+        col.note_inconclusive("the %s driver produced no finished path" % c["c7"]["group"])
+
+
 def _run_hash_order(c, col):
     import json
 
+    if c["target"] == "record":
+        return _run_hash_order_record(c, col)
     E.cfg.nd_sets = True
     E.cfg.concrete_floats = True
     try:
